@@ -4,3 +4,5 @@ import Model.Rainflow.Detectors
 import Model.Rainflow.Spec
 import Model.HCM
 import Model.FkmNonlinear
+import Model.Woehler
+import Model.Collective
